@@ -113,7 +113,7 @@ Proof.
   assert (Hd : forall d, d < length b -> nth d h3 0 = ago (ws ++ [w]) d).
   { intros d D. destruct d; [rewrite ago_snoc_0; reflexivity|].
     rewrite ago_snoc_S, Fd by lia. unfold h2. rewrite nth_set_nth_neq by lia. rewrite S1.
-    destruct (Nat.leb_spec 1 (S d)), (Nat.leb_spec (S d) (length b - 1)); simpl; try lia.
+    destruct (Nat.leb_spec 1 (S d)), (Nat.leb_spec (S d) (length b - 1)); cbn [andb]; try lia.
     replace (S d - 1)%nat with d by lia. apply H. lia. }
   split; [lia|]. split; [exact Hd|]. split.
   - (* x = w + Σ_{i>=1} a_i w_{n-i} *)
@@ -165,9 +165,7 @@ Proof.
   replace (ws ++ w :: iir_trace b a h1 xs) with ((ws ++ [w]) ++ iir_trace b a h1 xs) by (rewrite <- app_assoc; reflexivity).
   destruct m.
   - cbn [nth]. rewrite Nat.add_0_r, X, Y. split; apply conv_at_ext; intros k Hk;
-      (destruct (Nat.eq_dec k (length ws));
-       [subst; rewrite app_nth1 by (rewrite app_length; simpl; lia); reflexivity
-       |rewrite <- app_assoc; rewrite !app_nth1 by lia; reflexivity]).
+      symmetry; apply app_nth1; rewrite app_length; simpl; lia.
   - cbn [nth]. simpl in Hm. destruct (IHxs m) as [A B]; [lia|].
     rewrite app_length in A, B. cbn [length] in A, B.
     replace (length ws + S m)%nat with (length ws + 1 + m)%nat by lia. split; assumption.
@@ -178,7 +176,8 @@ Lemma conv_a1_split a ys n : 0 < length a ->
 Proof.
   intros Ha. unfold SpecDSP.conv_at, SpecDSP.feedback_at. rewrite a1_length.
   replace (length a) with (S (length a - 1)) by lia.
-  rewrite !rsum_shift. cbn [Nat.leb andb]. rewrite nth_a1_0, Nat.sub_0_r by lia.
+  rewrite !rsum_shift. change (0 <=? n) with true. change (1 <=? 0) with false. cbn [andb].
+  rewrite nth_a1_0, Nat.sub_0_r by lia.
   rewrite (rsum_ext (fun i => if S i <=? n then nth (S i) (a1 a) 0 * nth (n - S i)%nat ys 0 else 0)
                     (fun i => if (1 <=? S i) && (S i <=? n) then nth (S i) a 0 * nth (n - S i)%nat ys 0 else 0)).
   - ring.
